@@ -102,7 +102,15 @@ def _(u):
                 out["job_wait_step"].at(b, j) == ite(zint(j) == ab, dur, pre["job_wait_step"].at(b, j))))
     # done <=> every real job passed every stage
     u.prove("step.done-only-if-every-job-passed-every-stage", IMPL(out["done"].at(b), out["job_location"].at(b, jj) == S))
-    u.prove("step.done-if-every-job-passed-every-stage", IMPL(u.forall((J,), lambda q: out["job_location"].at(b, q) == S), out["done"].at(b)))
+    # (converse, quantifier-free: stated at the counter-witness of the code's own all()-reduction - if even that job passed every stage,
+    # the instance is flagged done; with the reduction's axiom "not all => the witness fails" this is the implication from "every job")
+    from tvc.vc import _skolem
+    alls = [r for r in u.ctx.reds.values() if r.kind == "all" and r.outer_rank == 1]
+    if alls:
+        w = _skolem(alls[0], "w0")([zint(b)])
+        u.prove("step.done-if-every-job-passed-every-stage", IMPL(IMPL(AND(w >= 0, w < J), out["job_location"].at(b, w) == S), out["done"].at(b)))
+    else:
+        u.prove("step.done-if-every-job-passed-every-stage", IMPL(u.forall((J,), lambda q: out["job_location"].at(b, q) == S), out["done"].at(b)))
     u.prove("step.durations-untouched", out["job_duration"].at(b, j, m) == pre["job_duration"].at(b, j, m))
     if "reward" in out.keys():
         # (path: the whole batch is finished) makespan = latest completion (start + duration) over all machines and real jobs
